@@ -2,6 +2,7 @@ package raftsim
 
 import (
 	"fmt"
+	"github.com/lni/dragonboat/v4/internal/vfs"
 	"math/rand"
 	"os"
 	"reflect"
@@ -25,15 +26,18 @@ type Options struct {
 	PreferNonVoting bool
 	// LongPartitions: partition phases last several election timeouts
 	LongPartitions bool
-	Witnesses      int
-	PreVote        bool
-	CheckQuorum    bool
-	Ordered        bool
-	AllowDup       bool // duplicate messages (never for C01 histories)
-	Overhead       uint64
-	ElectionRTT    uint64
-	HeartbeatRTT   uint64
-	Keys           int
+	// RealStore: every replica keeps its raft state in a real sharded Pebble log store (in-memory
+	// file system), reopened at every restart of the replica
+	RealStore    bool
+	Witnesses    int
+	PreVote      bool
+	CheckQuorum  bool
+	Ordered      bool
+	AllowDup     bool // duplicate messages (never for C01 histories)
+	Overhead     uint64
+	ElectionRTT  uint64
+	HeartbeatRTT uint64
+	Keys         int
 	// weights (relative) of the scheduler's actions
 	WCrash, WSnapshot, WConfigChange, WTransfer, WRead, WPropose, WPartition int
 	HealRounds                                                               int // election timeouts of fair schedule after the fault prefix (C17)
@@ -119,12 +123,23 @@ func NewSim(opt Options, sink Sink) *Sim {
 	for i := 1; i <= opt.Voters; i++ {
 		id := uint64(i)
 		r := &replica{sim: s, id: id, cfg: s.newConfig(id, false, false), addr: members[id],
-			store: newMemStore(shardID, id)}
+			store: s.newStore(id)}
 		s.replicas[id] = r
 		s.order = append(s.order, id)
 		r.start(members, true)
 	}
 	return s
+}
+
+// newStore returns the durable store of a new replica: the in-memory one, or (Options.RealStore)
+// the same shadow on top of a real sharded Pebble log store on its own in-memory file system.
+func (s *Sim) newStore(id uint64) *memStore {
+	st := newMemStore(shardID, id)
+	if s.opt.RealStore {
+		st.realFS = vfs.NewMemFS()
+		st.openReal()
+	}
+	return st
 }
 
 func (s *Sim) tr(format string, a ...interface{}) {
@@ -618,7 +633,7 @@ func (s *Sim) countKind(nonVoting, witness bool) int {
 // members).
 func (s *Sim) join(id uint64, nonVoting, witness bool) {
 	r := &replica{sim: s, id: id, cfg: s.newConfig(id, nonVoting, witness), addr: fmt.Sprintf("a%d", id),
-		store: newMemStore(shardID, id), joined: true}
+		store: s.newStore(id), joined: true}
 	s.replicas[id] = r
 	s.order = append(s.order, id)
 	s.guard(r, "join", func() { r.start(nil, false) })
